@@ -81,7 +81,7 @@ def handle (op : String) (args : List String) : Option String :=
       ";".intercalate tr ++ " | " ++ fin
     | _, _, _, _ => "bad-arg"
   | "c07.program", [] => some <|
-    s!"openExcl={gitFile.openExcl} guardClose={gitFile.guardClose} closePre={gitFile.closePre.map (fun p => (p.1.name, p.2))} finallyAbort={gitFile.finallyAbort} markClosedOnReplace={gitFile.markClosedOnReplace} guardAbort={gitFile.guardAbort} abortRemoves={gitFile.abortRemoves} wellBehaved={gitFile.wellBehaved} abortsOnAnyCloseFailure={gitFile.abortsOnAnyCloseFailure}"
+    s!"openExcl={gitFile.openExcl} guardClose={gitFile.guardClose} closePre={gitFile.closePre.map (fun p => (p.1.name, p.2))} finallyAbort={gitFile.finallyAbort} markClosedOnReplace={gitFile.markClosedOnReplace} guardAbort={gitFile.guardAbort} abortRemoves={gitFile.abortRemoves} abortCloseInTry={gitFile.abortCloseInTry} wellBehaved={gitFile.wellBehaved} abortsOnAnyCloseFailure={gitFile.abortsOnAnyCloseFailure}"
   | _, _ => none
 
 end DriverC07
